@@ -93,6 +93,7 @@ fn run_one(client_port: u16, f: &FlowEnd, tag: u64, tap: Option<&Tap>, keep: &st
                 ops: vec![Op::AppWrite(f.up.max(1)), Op::TargetWrite(f.down.max(1)), Op::Sync],
                 ending: if f.end == End::AppClosesClean { Ending::AppCloses(f.up % 5000) } else { Ending::TargetCloses(f.down % 5000) },
                 slow_reader_ms: 0,
+                idle_ms: 0,
             };
             let (rep, _) = run_flow(client_port, &sc, tag);
             (rep.fail, true)
@@ -388,20 +389,22 @@ pub fn exec_once(c: &Case) -> CaseResult {
 }
 
 pub fn exec_confirmed(c: &Case) -> (CaseResult, u32) {
-    let mut r = exec_once(c);
-    let mut reruns = 0;
-    while let Some(f) = &r.fail {
-        if !f.soft || reruns >= 2 || rt::failed_already() {
-            break;
-        }
-        reruns += 1;
-        let r2 = exec_once(c);
-        if r2.fail.is_none() {
-            return (r2, reruns);
-        }
-        r = r2;
+    // A failure decided by a deadline is reported when it shows in at least two of three executions on fresh clusters
+    // (the first one and one of two re-runs): a one-off deadline miss of the machine is not reported, a defect that
+    // depends on the implementation's own randomness (one flow in twenty) still is.
+    let r = exec_once(c);
+    let Some(f) = &r.fail else { return (r, 0) };
+    if !f.soft || rt::failed_already() {
+        return (r, 0);
     }
-    (r, reruns)
+    let mut last = exec_once(c);
+    if last.fail.is_none() {
+        last = exec_once(c);
+    }
+    if last.fail.is_none() {
+        last.labels.push("deadline-miss-not-confirmed".into());
+    }
+    (last, 2)
 }
 
 fn flow_strategy() -> BoxedStrategy<FlowEnd> {
@@ -441,9 +444,6 @@ impl SubCheck for Teardown {
         out.weight = c.flows.len() as u64;
         for l in r.labels {
             out.label(l);
-        }
-        if reruns > 0 && r.fail.is_none() {
-            out.label("deadline-miss-not-confirmed");
         }
         if r.nontrivial {
             out.nontrivial(format!("{}|{:?}|{}", c.spec.short(), c.flows.iter().map(|f| f.end).collect::<Vec<_>>(), c.concurrent));
